@@ -523,6 +523,14 @@ func (s *SQLiteStore) streamBatch(
 		}
 	}
 
+	// Next() also returns false when iteration failed or the context was cancelled
+	if err := rows.Err(); err != nil {
+		rows.Close()
+		*iterErr = fmt.Errorf("sqlite: iterate events: %w", err)
+		yield(nil, *iterErr)
+		return batchCount, lastPos, false
+	}
+
 	if err := rows.Close(); err != nil {
 		*iterErr = fmt.Errorf("sqlite: close rows: %w", err)
 		yield(nil, *iterErr)
